@@ -205,7 +205,9 @@ func TestRepoScenarios(t *testing.T) {
 	payApp := func() client.ProposalOpts {
 		return client.WithApp(chtest.NewRandomAppAndData(rng, chtest.WithAppRandomizer(new(payment.Randomizer))))
 	}
-	ctxOf := func(d time.Duration) (context.Context, context.CancelFunc) { return context.WithTimeout(context.Background(), d) }
+	ctxOf := func(d time.Duration) (context.Context, context.CancelFunc) {
+		return context.WithTimeout(context.Background(), d)
+	}
 	run("payment", func(t *testing.T) {
 		for _, app := range []client.ProposalOpts{client.WithoutApp(), payApp()} {
 			s := setups(rng, []string{"Alice", "Bob"}, rec)
